@@ -4,11 +4,11 @@ import (
 	"fmt"
 	"os"
 	"path/filepath"
-	"sort"
 	"strings"
 	"testing"
 	"time"
 
+	"github.com/oneconcern/datamon/pkg/core"
 	"pgregory.net/rapid"
 
 	"verifharness/evid"
@@ -36,7 +36,13 @@ func sweep() {
 type cycleT struct {
 	Ops   []purgex.Op `json:"ops"`
 	Chunk uint64      `json:"chunk"`
+	Drop  bool        `json:"drop_index_first"` // `datamon purge delete-reverse-lookup` before rebuilding (docs/purge.md step 4)
 }
+
+// pinned cases run with the exclusions of known findings switched off: they are the reproductions
+var noExclude bool
+
+func known(id string) bool { return !noExclude && hx.Known(id) }
 
 type caseT struct {
 	Shape    purgex.Shape `json:"shape"`
@@ -47,6 +53,7 @@ type caseT struct {
 	Between  []purgex.Op  `json:"between"`
 	DryRun   bool         `json:"dry_run_first"`
 	Cycle2   *cycleT      `json:"cycle2,omitempty"`
+	Junk     int          `json:"junk_orphans,omitempty"` // unreferenced blobs written by an outside party before the index (> 1024: the blob listing of delete-unused needs several pages)
 }
 
 func drawCase(t *rapid.T) caseT {
@@ -61,8 +68,14 @@ func drawCase(t *rapid.T) caseT {
 	c.Ticker = rapid.IntRange(0, 3).Draw(t, "ticker") == 2
 	c.Between = purgex.DrawOps(t, c.Shape, 0, 3, 1, "nbetween")
 	c.DryRun = rapid.IntRange(0, 4).Draw(t, "dry") == 2
+	switch rapid.IntRange(0, 11).Draw(t, "junk") {
+	case 3:
+		c.Junk = rapid.IntRange(1020, 1100).Draw(t, "njunk")
+	case 7:
+		c.Junk = rapid.IntRange(1, 5).Draw(t, "njunk")
+	}
 	if rapid.IntRange(0, 3).Draw(t, "cycle2") == 2 {
-		c.Cycle2 = &cycleT{Ops: purgex.DrawOps(t, c.Shape, 1, 4, 2, "ncycle2"), Chunk: uint64(rapid.IntRange(1, 9).Draw(t, "chunk2"))}
+		c.Cycle2 = &cycleT{Ops: purgex.DrawOps(t, c.Shape, 1, 4, 2, "ncycle2"), Chunk: uint64(rapid.IntRange(1, 9).Draw(t, "chunk2")), Drop: rapid.IntRange(0, 3).Draw(t, "drop") == 1}
 	}
 	return c
 }
@@ -76,6 +89,7 @@ type outcomeT struct {
 	cycle2Deleted     int
 	skipped           int
 	damaged           bool
+	dropped           bool
 }
 
 // purgeCycle runs build-reverse-lookup + (between ops) + delete-unused once and applies the oracle
@@ -250,6 +264,10 @@ func runCase(c caseT, out *outcomeT) error {
 	if err := w.CheckModel(); err != nil {
 		return err
 	}
+	for i := 0; i < c.Junk; i++ {
+		// looks like a blob key (128 hex digits), spread over the key space
+		w.Blob().RawPut(fmt.Sprintf("%016x%0112x", uint64(i+1)*0x9E3779B97F4A7C15, i), []byte("junk"))
+	}
 	if err := purgeCycle(w, c, c.Chunk, c.Between, c.DryRun, "c1", out); err != nil {
 		return err
 	}
@@ -258,6 +276,20 @@ func runCase(c caseT, out *outcomeT) error {
 			if err := w.Apply(o, "cycle2"); err != nil {
 				return err
 			}
+		}
+		drop := c.Cycle2.Drop
+		if !drop && known(KnownStaleChunks) {
+			stats.Count("excluded_"+KnownStaleChunks, 1)
+			drop = true
+		}
+		if drop {
+			if err := core.PurgeDropReverseIndex(w.Purge[0].Stores, core.WithPurgeLogger(hx.Nop)); err != nil {
+				return fmt.Errorf("delete-reverse-lookup failed without any fault: %v", err)
+			}
+			if chunks, _ := w.ReadIndex(); len(chunks) != 0 {
+				return fmt.Errorf("delete-reverse-lookup left %d index chunks behind", len(chunks))
+			}
+			out.dropped = true
 		}
 		if err := purgeCycle(w, c, c.Cycle2.Chunk, nil, false, "c2", out); err != nil {
 			return fmt.Errorf("second purge cycle (index rebuilt over the previous one): %v", err)
@@ -290,8 +322,8 @@ func cls(n int) string {
 
 func (c caseT) classes(o outcomeT) (string, bool) {
 	nt := o.deleted >= 1 && o.keyChunks >= 2
-	sig := fmt.Sprintf("ctx=%d chunks=%s deleted=%s newer=%s shared=%v between=%v cycle2=%v/%s ticker=%v dry=%v",
-		len(c.Shape.Repos), cls(o.keyChunks), cls(o.deleted), cls(o.newer), o.sharedSurvivor, len(c.Between) > 0, c.Cycle2 != nil, cls(o.cycle2Deleted), c.Ticker, c.DryRun)
+	sig := fmt.Sprintf("ctx=%d chunks=%s deleted=%s newer=%s shared=%v between=%v cycle2=%v/%s/drop=%v ticker=%v dry=%v junk=%s",
+		len(c.Shape.Repos), cls(o.keyChunks), cls(o.deleted), cls(o.newer), o.sharedSurvivor, len(c.Between) > 0, c.Cycle2 != nil, cls(o.cycle2Deleted), o.dropped, c.Ticker, c.DryRun, map[bool]string{true: "pages", false: "no"}[c.Junk > 1000])
 	return sig, nt
 }
 
@@ -309,7 +341,7 @@ func check(t interface {
 
 func describe(c caseT) string {
 	var sb strings.Builder
-	fmt.Fprintf(&sb, "repos=%v leaves=%v chunk=%d parallel=%d ticker=%v dry=%v\n  pre:", c.Shape.Repos, c.Shape.Leaves, c.Chunk, c.Parallel, c.Ticker, c.DryRun)
+	fmt.Fprintf(&sb, "repos=%v leaves=%v chunk=%d parallel=%d ticker=%v dry=%v junk=%d\n  pre:", c.Shape.Repos, c.Shape.Leaves, c.Chunk, c.Parallel, c.Ticker, c.DryRun, c.Junk)
 	for _, o := range c.Pre {
 		sb.WriteString(" " + o.String())
 	}
@@ -354,6 +386,9 @@ func record(c caseT, o outcomeT) {
 	if c.Ticker {
 		stats.Count("purge_ticker", 1)
 	}
+	if c.Junk > 1000 {
+		stats.Count("purge_blob_listing_paginated", 1)
+	}
 	if o.damaged {
 		stats.Count("purge_between_upload_lost_reused_orphan", 1)
 	}
@@ -367,13 +402,4 @@ func TestPropPurgeExact(t *testing.T) {
 		o := check(t, c)
 		record(c, o)
 	})
-}
-
-func sortedKeys(m map[string]bool) []string {
-	out := make([]string, 0, len(m))
-	for k := range m {
-		out = append(out, k)
-	}
-	sort.Strings(out)
-	return out
 }
